@@ -104,6 +104,17 @@ CLAIMED["C37"] = dict(
         "argument (backup converges after any sequence of runs) are not decided here. " + TRUST,
    design="DESIGN.md §4 C37")
 
+CLAIMED["C05"] = dict(
+   text="Proof-level kernel, both offset widths (build tags verif and verif,5BytesOffset): the running counters (mapMetric.logPut / logDelete / LogFileCounter / "
+        "LogDeletionCounter / MaybeSetMaxFileKey: exact deltas modulo the counter width) and the reload step (the closure doLoading hands to WalkIndexFile): "
+        "replaying one index entry changes file count, byte totals, deletion count/bytes and the maximum key exactly as the live Put/Delete that appended the "
+        "entry did, and calls Set/Delete on the value map once with the entry's key and size; the Offset codec (IsZero, ToOffset, ToActualOffset, "
+        "OffsetToBytes, BytesToOffset) is exact for 4- and 5-byte offsets.",
+   note="The value map behind NeedleMap (CompactMap sections and overflow, MemDb) is an assumed interface (Set/Delete return some previous entry; live entries "
+        "have non-zero offsets): its lookup semantics, the LevelDB and sorted-file maps and the bloom-filter estimate newNeedleMapMetricFromIndexFile are not "
+        "decided here. One open known finding (empty blob replayed as a delete); one defect repaired (tombstone of an absent key counted on reload). " + TRUST,
+   design="DESIGN.md §4 C05")
+
 NA = {
  "C03":"crash-point property over byte-level truncation of two persistent files; no per-function contract within reach decides it (DESIGN §4 C03)",
  "C10":"needs inductive tree predicates and cardinality reasoning over interface-typed nodes in pointer maps with randomised picking (DESIGN §4 C10)",
